@@ -7,6 +7,7 @@ import (
 	"os"
 	"strconv"
 	"strings"
+	"sync"
 	"sync/atomic"
 	"testing"
 	"time"
@@ -568,6 +569,11 @@ func TestC16ReconnectWindow(t *testing.T) {
 		kase.ParkAt = rapid.IntRange(0, len(sc.Monitors)).Draw(t, "parkat")
 		parked := make(chan struct{})
 		release := make(chan struct{})
+		var relOnce sync.Once
+		doRelease := func() { relOnce.Do(func() { close(release) }) }
+		// also when the case is abandoned while the client is parked (rapid unwinds a case it
+		// cannot replay while shrinking): the parked goroutine holds the client's locks
+		defer doRelease()
 		var seen int32
 		client.SetVerifHook(func(cl client.Client, point string) {
 			if cl != c || point != "monitor:reply" {
@@ -583,13 +589,13 @@ func TestC16ReconnectWindow(t *testing.T) {
 			select {
 			case <-parked:
 			case <-time.After(30 * time.Second):
-				close(release)
+				doRelease()
 				fail("reconnect.never", "30 s after the cut the client has not restarted monitor %d", kase.ParkAt)
 			}
 			for i, n := 0, rapid.IntRange(1, 3).Draw(t, "ninside"); i < n; i++ {
 				kase.Inside = append(kase.Inside, foreign("inside"))
 			}
-			close(release)
+			doRelease()
 		}
 		for i, n := 0, rapid.IntRange(0, 2).Draw(t, "nafter"); i < n; i++ {
 			kase.After = append(kase.After, foreign("after"))
